@@ -2,6 +2,8 @@
 pub mod c01;
 pub mod c02;
 pub mod common;
+pub mod fixed;
+pub mod streams;
 
 use crate::worker::W;
 
@@ -9,6 +11,12 @@ pub fn dispatch(w: &mut W) {
     match w.prop.as_str() {
         "C01" => c01::run(w),
         "C02" => c02::run(w),
+        "C03" => fixed::run_c03(w),
+        "C08" => fixed::run_c08(w),
+        "C04" => streams::run_c04(w),
+        "C05" => streams::run_c05(w),
+        "C09" => streams::run_c09(w),
+        "C10" => streams::run_c10(w),
         other => {
             eprintln!("no worker for property {}", other);
             std::process::exit(2);
